@@ -140,6 +140,9 @@ def check(sdir, ids):
                                 tier=os.environ.get("SEED_TIER", "quick"))
             if kind == "MISSED":
                 allc = False
+        import hashlib
+        shutil.rmtree(os.path.join(VERIF, ".build", "scratch-" + hashlib.sha1(os.path.realpath(wt).encode()).hexdigest()[:10]),
+                      ignore_errors=True)
         rp = os.path.join(sdir, "check_result.json")
         old = json.load(open(rp)) if os.path.exists(rp) else {}
         old.update(results)
